@@ -90,6 +90,9 @@ def make_data(names, n, rng, style='generic'):
             vals = [round(rng.uniform(-1.0, 1.0), 4) for _ in range(n)]
         elif style == 'ints':
             vals = [float(rng.randint(-3, 3)) for _ in range(n)]
+        elif style == 'extreme':
+            # special values and extreme magnitudes (both sides run the same NumPy / Python operations on them)
+            vals = [rng.choice([0.0, -0.0, 5e-324, 1e-310, 1e308, -1e308, 1e-5, float(2 ** 53 + 2), 1.0, -1.0, 0.5]) for _ in range(n)]
         else:
             vals = [round(rng.uniform(-4.0, 4.0), 4) for _ in range(n)]
         data[nm] = np.array(vals, dtype=float)
